@@ -345,6 +345,13 @@ def run_case(case):
     class D(Dyn):
         def simulationStarted(self, params):
             exp.append("START " + state_line(self, st['ex']))
+            g = self.network()
+            self._vp_seeds = {id(q): {n for n in g.nodes() if g.nodes[n].get(q.COMPARTMENT) in
+                                      ({q.INFECTED} if hasattr(q, 'INFECTED') and not hasattr(q, 'EXPOSED') else
+                                       {q.EXPOSED} if hasattr(q, 'EXPOSED') else {q.SPREADER} if hasattr(q, 'SPREADER') else set())}
+                              for q in st['ex'].cms}
+            for f in case.get('oracles', ()):
+                if getattr(f, '__name__', '') == 'oracle_diagram': f(self, st['ex'], dict(posted=True), 0.0, None, None, None)
 
         def eventFired(self, t, p, name, e):
             ex = st['ex']
@@ -470,6 +477,9 @@ def run_case(case):
         if case['dyn'] == 'sto':
             late = [(tt, j) for j, (tt, _) in ref.items() if tt < md[Dynamics.TIME]]
             if late: qviol(f"run ended at {md[Dynamics.TIME]} with event id {min(late)[1]} still pending for {min(late)[0]}")
+        for f in case.get('finals', ()):
+            r = f(d, st['ex'], res, md, case)
+            if r: info['oracle'].append((f.__name__.replace('final_', ''), r))
         if md[Dynamics.EVENTS] != info['events']:
             info['oracle'].append(('clock', f"metadata reports {md[Dynamics.EVENTS]} events, the tap saw {info['events']}"))
     except RecursionError:
